@@ -62,7 +62,7 @@ pub const PROPS: &[Prop] = &[
         quick_runs: 30_000,
         thorough_runs: 1_000_000,
         rule: "grid: descriptor kind {pipe, stream socketpair, dgram socketpair} x initial mode {blocking, non-blocking} x fill {empty, one short of full, full} x burst {1, 2, 7, 300} x entry {pipe::register, register_raw, iterator-internal wake} x ending {unregister, forbidden signal, invalid signal, closed descriptor number} x 2 (second pipe on the same signal or not); then seeded histories. Oracles: bytes read back vs deliveries, would-block probe, descriptor validity after removal/rejection, descriptor-number reuse probe. Non-trivial: the descriptor was full or nearly full, or the registration was rejected. Distinct: by grid cell / history hash.",
-        probes: &[(E_PIPE_FULL, "deliveries_with_full_descriptor"), (E_HIST_REJECTED, "rejected_registrations"), (E_FD_REUSE_PROBE, "descriptor_number_reuse_probes"), (E_HIST_DELIVERIES, "deliveries_made"), (E_CLOSE_COUNTED, "runs_with_close_calls_counted_by_interposition")],
+        probes: &[(E_PIPE_FULL, "deliveries_with_full_descriptor"), (E_HIST_REJECTED, "rejected_registrations"), (E_FD_REUSE_PROBE, "descriptor_number_reuse_probes"), (E_HIST_DELIVERIES, "deliveries_made"), (E_CLOSE_COUNTED, "runs_with_close_calls_counted_by_interposition"), (E_LOW_FD, "fault:write_end_is_descriptor_0")],
         real: HIST_REAL,
         stub: HIST_STUB,
         assumptions: &["wall clock only as the watchdog for a wake that blocks anyway"],
@@ -174,6 +174,15 @@ fn c05(spec: &RunSpec) -> ! {
     for _ in 0..nsig {
         sigs.push(pool.remove(sim::work(pool.len() as u32) as usize));
     }
+    // in a third of the histories one of the signals is a *forbidden but catchable* one (SIGILL,
+    // SIGFPE), reachable through the unchecked entry points only: the registry must treat its actions
+    // and ids like any others (SIGSEGV/SIGBUS stay out: the simulated process keeps its fault probe there)
+    let forb = sim::work(3) == 0;
+    if forb {
+        let f = [libc::SIGILL, libc::SIGFPE][sim::work(2) as usize];
+        let at = sim::work(nsig as u32) as usize;
+        sigs[at] = f;
+    }
     let nops = match sim::work(4) {
         0 => 5 + sim::work(10),
         1 => 15 + sim::work(30),
@@ -214,6 +223,7 @@ fn c05(spec: &RunSpec) -> ! {
         if ids.is_empty() || r < 35 {
             let sig = sigs[sim::work(nsig as u32) as usize];
             let variant = sim::work(4);
+            let variant = if sig == libc::SIGILL || sig == libc::SIGFPE { 2 + variant % 2 } else { variant };
             let tag = next_tag;
             next_tag += 1;
             let res = catch_unwind(AssertUnwindSafe(|| unsafe {
@@ -899,7 +909,17 @@ fn c13(spec: &RunSpec) -> ! {
         }
         n
     };
-    let (rd, wr) = make_pair(kind, true);
+    let (rd, mut wr) = make_pair(kind, true);
+    // fault (environment): the process runs without a standard input (a daemon that closed it, a
+    // service started with no descriptors), so the write end handed over is descriptor number 0
+    if !sweep && sim::work(5) == 0 {
+        unsafe {
+            libc::dup2(wr, 0);
+            libc::close(wr);
+        }
+        wr = 0;
+        sim::count(E_LOW_FD, 1);
+    }
     // fill level; `present` = units inside before the burst
     let mut present = 0usize;
     if fill > 0 {
